@@ -684,8 +684,10 @@ func main() {
 		if err := json.Unmarshal(b, &rp); err != nil {
 			hx.Fatal("replay: %v", err)
 		}
+		seenID := map[int]bool{}
 		for _, v := range rp.ImplViolations {
-			if v.Input.Scenario != nil {
+			if v.Input.Scenario != nil && !seenID[v.Input.Scenario.ID] {
+				seenID[v.Input.Scenario.ID] = true
 				for _, s := range v.Input.Scenario.Specs {
 					s.Bin = buildModule(s)
 				}
@@ -694,9 +696,9 @@ func main() {
 		}
 	} else {
 		r := hx.Rand()
-		per, nops := 40, 40
+		per, nops := 200, 40
 		if hx.Thorough() {
-			per, nops = 400, 80
+			per, nops = 2500, 70
 		}
 		id := 0
 		for _, engine := range []string{"interpreter", "compiler"} {
